@@ -5,6 +5,9 @@ character codes (`_` = empty string); a list of strings is `,`-separated. A trac
 `<n> <xs> <ys> <zs> <ts> <names> <cols>` (floats as IEEE bit patterns, columns `;`-separated).
 
   operate <track> <expr>                    → <status> <vector|none> <names> <cols> <xs> <ys> <zs>
+  operatex <track> <names> <values> <expr>  → as `operate`, with the dictionary of externals
+  getitem <track> <expr>                    → as `operate` (Track[expr])
+  operateseq <track> <expr>,<expr>,…        → as `operate`, for the last statement run (the first failing one)
   rpn <expr>                                → <status> <tokens>        (utils.makeRPN, character level)
   rw special|reflex|unary|funcat|pre <expr> → <status> <string>        (the rewriting steps of __evaluate)
   prime <tokens>                            → ok <tokens>
@@ -55,6 +58,9 @@ def voidRes (r : Res Float (List Float)) : Res Float (Option (List Float)) :=
 
 def char? (s : String) : Option Char := s.toNat?.map Char.ofNat
 
+/-- output name of an operator object: `none` = not given (defaults to the first input) -/
+def out? (s : String) (in1 : Str) : Option Str := if s == "none" then some (defaultOut none in1) else (str? s).map (fun o => defaultOut (some o) in1)
+
 /-- prefix token list → tree -/
 def tree? : Nat → List String → Option (Ex × List String)
   | 0, _ => none
@@ -81,6 +87,29 @@ def handle (cmd : String) (args : List String) : String :=
     | some (tr, [e]) => match str? e with
       | some e => showRes (operate tr e)
       | none => "bad-request"
+    | _ => "bad-request"
+  | "operatex" =>
+    -- operatex <track> <names> <values> <expr> : Track.operate(expr, {name: value, …})
+    match track? args with
+    | some (tr, [ns, vs, e]) => match strList? ns, floatList? vs, str? e with
+      | some ns, some vs, some e => if ns.length == vs.length then showRes (operateX (ns.zip vs) tr e) else "bad-request"
+      | _, _, _ => "bad-request"
+    | _ => "bad-request"
+  | "getitem" =>
+    match track? args with
+    | some (tr, [e]) => match str? e with
+      | some e => showRes (getitemStr tr e)
+      | none => "bad-request"
+    | _ => "bad-request"
+  | "operateseq" =>
+    -- several statements run one after the other on the same track (stops at the first error)
+    match track? args with
+    | some (tr, [es]) => match strList? es with
+      | some (e :: rest) =>
+        showRes (rest.foldl (fun acc e => match acc.1 with
+          | .ok _ => operate acc.2 e
+          | .error _ => acc) (operate tr e))
+      | _ => "bad-request"
     | _ => "bad-request"
   | "rpn" =>
     match args.mapM str? with
@@ -115,27 +144,31 @@ def handle (cmd : String) (args : List String) : String :=
     | _ => "bad-request"
   | "opbin" =>
     match track? args with
-    | some (tr, [o, a, b, out]) => match char? o, str? a, str? b, str? out with
+    | some (tr, [o, a, b, out]) => match char? o, str? a, str? b, (str? a).bind (out? out) with
       | some o, some a, some b, some out => showRes (voidRes (opBin tr o a b out))
       | _, _, _, _ => "bad-request"
     | _ => "bad-request"
   | "opscal" =>
     match track? args with
-    | some (tr, [o, a, s, out]) => match char? o, str? a, float? s, str? out with
+    | some (tr, [o, a, s, out]) => match char? o, str? a, float? s, (str? a).bind (out? out) with
       | some o, some a, some s, some out => showRes (voidRes (opScal tr o a s out))
       | _, _, _, _ => "bad-request"
     | _ => "bad-request"
   | "opscalrev" =>
     match track? args with
-    | some (tr, [o, a, s, out]) => match char? o, str? a, float? s, str? out with
+    | some (tr, [o, a, s, out]) => match char? o, str? a, float? s, (str? a).bind (out? out) with
       | some o, some a, some s, some out => showRes (voidRes (opScalRev tr o a s out))
       | _, _, _, _ => "bad-request"
     | _ => "bad-request"
   | "opfn" =>
     match track? args with
-    | some (tr, [f, a, out]) => match str? f, str? a, str? out with
+    | some (tr, [f, a, out]) => match str? f, str? a, (str? a).bind (out? out) with
       | some f, some a, some out =>
-        if isVoidFn f then showRes (voidRes (opVoidFn tr f a out)) else "bad-request"
+        if isVoidFn f then
+          -- `Log.execute` returns nothing
+          let r := opVoidFn tr f a out
+          if f = logName then showRes (r.1.map (fun _ => none), r.2) else showRes (voidRes r)
+        else "bad-request"
       | _, _, _ => "bad-request"
     | _ => "bad-request"
   | "opagg" =>
